@@ -378,6 +378,10 @@ def body_if_block(h, n_elseif, has_else, body_len):
         node.if_blocks = [(_Cond(100 + i), [_Cond(200 + 10 * i + j) for j in range(body_len)]) for i in range(arms)]
         node.else_body = [_Cond(300)] if has_else else []
         node.elseif_stmts = [_Node(f'elseif{i}') for i in range(n_elseif)]
+        for i, es in enumerate(node.elseif_stmts):
+            # after AST folding the condition held by the ELSEIF statement and the one in if_blocks are different
+            # (equal-valued) node objects
+            es.cond = _Cond(100 + i + 1)
         node.else_stmt = _Node('else') if has_else else None
         node.parent = None
         code = QvmCode()
